@@ -829,7 +829,17 @@ class Extractor:
                     calls.add('.' + t_.text)
                 else:
                     calls.add(t_.text)
-        self.report['fns'].append({'path': path, 'file': relfile, 'line': it.line, 'external': external, 'calls': sorted(calls),
+        # raw short-transfer primitives (Read::read / Write::write, not read_exact / write_all) used by this function, and whether
+        # each use sits inside a loop of the function (a retry loop is the only transparent way to use them: C10)
+        raw = []
+        if not external:
+            lps = self.find_loops(toks, it.body_open + 1, it.body_close)
+            for k_ in range(it.body_open, it.body_close - 1):
+                # (`.write(&bytes)` / `.read(&mut buf)`: a borrowed buffer argument; `BoxHeader::write(writer)` and the like are not these)
+                if toks[k_].text == '.' and toks[k_ + 1].text in ('read', 'write') and toks[k_ + 2].text == '(' and toks[k_ + 3].text == '&' \
+                        and k_ >= 1 and toks[k_ - 1].kind == 'ident' and ('writer' in toks[k_ - 1].text or 'reader' in toks[k_ - 1].text):
+                    raw.append({'name': toks[k_ + 1].text, 'line': toks[k_ + 1].line, 'in_loop': any(bo_ < k_ < bc_ for (_kw, bo_, bc_) in lps)})
+        self.report['fns'].append({'path': path, 'file': relfile, 'line': it.line, 'external': external, 'calls': sorted(calls), 'raw_transfers': raw,
                                    'contracted': bool(contracts), 'props': props, 'module': ctx['mod'],
                                    'end_line': it.line + src.count('\n', it.start, it.end),
                                    'requires': [[cl.label, cl.src] for cl in reqs],
